@@ -189,7 +189,7 @@ def materialise(bdir, case):
 
 def run_case(work, idx, case, keep=False):
     cdir = os.path.join(work, f'case{idx}')
-    bdir = os.path.join(cdir, 'budget')
+    bdir = os.path.join(cdir, case.get('dirname') or 'budget')     # the folder name itself is part of the input
     home = os.path.join(cdir, 'home')
     shutil.rmtree(cdir, ignore_errors=True)
     os.makedirs(home)
@@ -204,7 +204,7 @@ def run_case(work, idx, case, keep=False):
     for k, entry in enumerate(case['cmds']):
         # a command is an argv list, or {'argv', 'cwd' (relative to the budget dir), 'env'}; '{B}' = the budget dir
         if isinstance(entry, dict):
-            argv = [a.replace('{B}', bdir) for a in entry['argv']]
+            argv = [a.replace('{B}', bdir).replace('{N}', os.path.basename(bdir)) for a in entry['argv']]
             cwd = os.path.normpath(os.path.join(bdir, entry.get('cwd') or '.'))
             cenv = dict(env)
             cenv.update({kk: vv.replace('{B}', bdir) for kk, vv in (entry.get('env') or {}).items()})
